@@ -254,6 +254,11 @@ func Harness_C04_SourceRunner() {
 					verif.Assert(!w.AsTime().Before(lastWM.AsTime()), "watermark-never-decreases")
 				}
 				lastWM = w
+				if nOps == 1 {
+					// with one operator everything the runner forwarded went here: the watermark stays
+					// below the largest event time forwarded before it (event times are rec+1 seconds)
+					verif.Assert(w.AsTime().Before(time.Unix(maxTS, 0)) || (maxTS == 0 && !w.AsTime().After(time.Unix(0, 0))), "watermark-below-the-largest-event-time-forwarded-before-it")
+				}
 			}
 		}
 	}
